@@ -34,7 +34,7 @@ def wire_seq(I, hint='args', min_len=1):
     cache = {}
 
     def elem(i):
-        key = i.get_id()
+        key = i.sexpr()        # (ids of temporary terms are recycled: key by text)
         if key not in cache:
             I.st.assume(W(i) >= 1)
             cache[key] = SObj('WireVector', dict(bitwidth=Sym(W(i))), oid=ID(i))
